@@ -2225,13 +2225,14 @@ class UndoSearch:
                 e = loads(self.file.read(el))
             except:  # noqa: E722 do not use bare 'except'
                 pass
-        d = {'id': encodebytes(tid).rstrip(),
-             'time': TimeStamp(tid).timeTime(),
-             'user_name': u,
-             'size': tl,
-             'description': d}
-        d.update(e)
-        return d
+        # The extension must not override what identifies and describes
+        # the transaction (the id is what undo() is called with).
+        e.update({'id': encodebytes(tid).rstrip(),
+                  'time': TimeStamp(tid).timeTime(),
+                  'user_name': u,
+                  'size': tl,
+                  'description': d})
+        return e
 
 
 class FilePool:
